@@ -766,7 +766,7 @@ func c09(r *vkit.Run) {
 		r.SetMinDistinct(0)
 		return
 	}
-	n := r.N(500, 10000)
+	n := r.N(500, 6000)
 	// NewBalTable stores a process-global fetcher: create all tables before any goroutine runs
 	tables := make([]*bfe_balance.BalTable, n)
 	for i := range tables {
